@@ -12,6 +12,9 @@ T2: three-way differential: `classify` evaluated in coqc  vs  Python `re` on the
     command sequences vs `handle`/`encode` (reply bytes compared byte-exactly with the real
     messages.rs encoders); the property's own predicate is also evaluated directly on the
     implementation's outputs (monitor, Python transcription of the documented semantics).
+Former findings D1 (SET PRIMARY READS argument compared case-sensitively) and D2 (Unicode-aware
+(?i)) are fixed in /repo (e1a07ff, b30a63c); the model follows the repaired code and a
+reproduction of either is a VIOLATION.
 """
 import itertools, json, os, re, struct, subprocess, sys
 from concurrent.futures import ThreadPoolExecutor
@@ -97,29 +100,26 @@ def impl_obs(o):
 
 # ------------------------------------------------------------------------------ oracles
 class PyRegexOracle:
-    """Python `re` on the literals extracted from the source.  Python's Unicode IGNORECASE
-    differs from the regex crate's (it also folds U+0130/U+0131), so matching is done with
-    re.ASCII and the two folds the regex crate has for the letters of these patterns
-    (U+017F->s, U+212A->k; confirmed against the real code by the fold scan) are applied to
-    the text first.  `$` (end of text in Rust) is rendered as \\Z."""
+    """Python `re` on the literals extracted from the source.  The literals carry (?i-u):
+    ASCII-only case folding, rendered as re.IGNORECASE | re.ASCII (Python's Unicode
+    IGNORECASE would also fold U+017F, U+212A, U+0130, U+0131); a non-ASCII character can
+    then match nothing in these patterns.  `$` (end of text in Rust) is rendered as \\Z."""
 
     def __init__(self, literals):
         self.rx = []
         for lit in literals:
-            assert lit.startswith("(?i)") and lit.endswith("$")
-            self.rx.append(re.compile(lit[4:-1] + r"\Z", re.I | re.A))
+            if not (lit.startswith("(?i-u)") and lit.endswith("$")):
+                raise ValueError("unexpected regex shape: %r" % lit)
+            self.rx.append(re.compile(lit[6:-1] + r"\Z", re.I | re.A))
 
     def classify(self, q: bytes):
         s = q.decode("utf-8", "replace")
-        t = s.replace("ſ", "s").replace("K", "k")
-        hits = [(i, m) for i, m in ((i, r.match(t)) for i, r in enumerate(self.rx)) if m]
+        hits = [(i, m) for i, m in ((i, r.match(s)) for i, r in enumerate(self.rx)) if m]
         if len(hits) != 1:
             return None
         i, m = hits[0]
         if m.re.groups:
-            a, b = m.span(1)
-            cap = s[a:b]           # same offsets: the folds are 1 char -> 1 char
-            return (CMDS[i], cap.encode())
+            return (CMDS[i], m.group(1).encode())
         return (CMDS[i], b"")
 
 
@@ -409,11 +409,10 @@ OK_TAG = {"SetShard": b"SET SHARD", "SetShardingKey": b"SET SHARDING KEY", "SetS
 
 
 def monitor_session(oracle, settings, queries, outs):
-    """the property evaluated on the implementation's own outputs.  Returns (problems, known)
-    where problems are real deviations and known those inside the open class D1."""
+    """the property evaluated on the implementation's own outputs.  Returns the list of
+    deviations (step index, text); empty = the session satisfies the property."""
     doc = DocState(settings)
-    problems, known = [], []
-    d1_active = False
+    problems = []
     for i, (q, o) in enumerate(zip(queries, outs)):
         if "panic" in o:
             problems.append((i, "panics: " + o["panic"][:100]))
@@ -431,8 +430,6 @@ def monitor_session(oracle, settings, queries, outs):
         cmd, cap = want
         chosen = o["pre_state"]["shard"] if cmd == "SetShard" else o["state"]["shard"]
         kind = doc.apply(cmd, cap, chosen)
-        if cmd == "SetPrimaryReads":
-            d1_active = cap != cap.lower()
         if rep[0] != kind:
             problems.append((i, "%r answered with %s, expected %s" % (q, rep[0], kind)))
             break
@@ -444,21 +441,15 @@ def monitor_session(oracle, settings, queries, outs):
                 problems.append((i, "%r: column %r" % (q, rep[1])))
                 break
             if rep[2] != doc.show(cmd):
-                msg = (i, "%r reports %r but the preceding SETs established %r" % (q, rep[2], doc.show(cmd)))
-                if cmd == "ShowPrimaryReads" and d1_active:
-                    known.append(msg)
-                    doc.preads = "on" if rep[2] == b"on" else "off"     # resynchronise
-                    d1_active = False
-                else:
-                    problems.append(msg)
-                    break
+                problems.append((i, "%r reports %r but the preceding SETs established %r" % (q, rep[2], doc.show(cmd))))
+                break
         if cmd in ("SetShard", "SetShardingKey") and kind == "ok" and not (o["state"]["shard"] is not None and o["state"]["shard"] < doc.n):
             problems.append((i, "%r selected shard %r of %d" % (q, o["state"]["shard"], doc.n)))
             break
         if kind == "err" and o["state"]["shard"] != (outs[i - 1]["state"]["shard"] if i else None):
             problems.append((i, "%r was refused but the shard changed" % q))
             break
-    return problems, known
+    return problems
 
 
 # ------------------------------------------------------------------------------ sequences
@@ -512,7 +503,7 @@ def check(run):
     rng = run.rng
     run.assumptions += [
         "Coq 8.16.1 kernel + vm_compute (no native_compute); Print Assumptions: closed under the global context for every theorem",
-        "regex crate semantics of the seven patterns (anchors, (?i) with Unicode simple folding, leftmost-first alternation) and String::from_utf8_lossy are environment: the hand-written recogniser is validated against the real try_execute_command on every generated string and by a scan of all Unicode scalar values per pattern letter",
+        "regex crate semantics of the seven patterns (anchors, (?i-u) ASCII case folding, leftmost-first alternation) and String::from_utf8_lossy are environment: the hand-written recogniser is validated against the real try_execute_command on every generated string and by a scan of all Unicode scalar values per pattern letter",
         "Client::handle_custom_protocol (private async method) is TRANSCRIBED in Model.v `handle` and in harness/src/bin/cmdlang.rs; its reply texts and call targets are extracted from client.rs on every run (Tie.v); a wire-level harness covers it end-to-end separately",
         "Sharder::shard(key) and rand::random() % shards are oracle inputs of the model (read back from the implementation's trace; < shards is checked by the monitor; the hash itself is C06)",
         "pool has >= 1 shard (validated configuration) — SET SHARD TO ANY with 0 shards would divide by zero",
@@ -622,19 +613,15 @@ def check(run):
         if n_dis >= 5:
             break
     # monitor on the documented language directly (independent of the source literals and the model)
-    d2 = []
     for i, q in enumerate(allq):
-        docv = doc_oracle.classify(q) if all(b < 128 for b in q) else None
+        if run.violations:
+            break
         if impl[i] is not None and impl[i][0] == "panic":
             continue
-        if all(b < 128 for b in q):
-            if not same_class(impl[i], docv) and not run.violations:
-                run.violation("counterexample", "ASCII query %r: implementation %s, documented language %s" % (q, impl[i], docv),
-                              {"kind_of_input": "classify", "input": {"hex": q.hex(), "text": q.decode()}, "impl": str(impl[i]), "documented": str(docv)})
-        elif impl[i] is not None:
-            d2.append(q)
-    if d2:
-        run.known_finding("open (benign): (?i) of the regex crate is Unicode-aware: %d generated non-ASCII spellings are taken as commands, e.g. %r (U+017F for S, U+212A for K); class known_fold (query contains a non-ASCII byte)" % (len(d2), d2[0].decode()), key="D2-unicode-fold")
+        docv = doc_oracle.classify(q)          # None for every query with a non-ASCII byte
+        if not same_class(impl[i], docv):
+            run.violation("counterexample", "query %r: implementation %s, documented language %s" % (q, impl[i], docv),
+                          {"kind_of_input": "classify", "input": {"hex": q.hex(), "text": q.decode("utf-8", "replace")}, "impl": str(impl[i]), "documented": str(docv)})
     samples.append({"kind": "classify", "query": allq[5].decode("utf-8", "replace"), "impl": str(impl[5]), "python_re": str(pyo[5]), "coq": str(coqv.get(5))})
     acc_i = next((i for i, x in enumerate(impl) if x is not None), 0)
     samples.append({"kind": "classify", "query": allq[acc_i].decode("utf-8", "replace"), "impl": str(impl[acc_i]), "python_re": str(pyo[acc_i]), "coq": str(coqv.get(acc_i))})
@@ -711,8 +698,8 @@ def check(run):
 
 def search_witness(binp, doc_oracle, allq, impl):
     for q, a in zip(allq, impl):
-        if all(b < 128 for b in q) and not same_class(a, doc_oracle.classify(q)):
-            return {"hex": q.hex(), "text": q.decode(), "impl": str(a), "documented": str(doc_oracle.classify(q))}
+        if not same_class(a, doc_oracle.classify(q)):
+            return {"hex": q.hex(), "text": q.decode("utf-8", "replace"), "impl": str(a), "documented": str(doc_oracle.classify(q))}
     return None
 
 
@@ -727,7 +714,7 @@ FOLD_TEMPLATES = {"S": ("", "ET SHARD TO 1"), "E": ("S", "T SHARD TO 1"), "T": (
 def fold_scan(run, binp, quick, dist, samples):
     """for each character class of the patterns: which of ALL Unicode scalar values may stand
     there.  Expected (= what Model.v eat_char / is_digit / tail_ok accept): the ASCII letter in
-    both cases, plus U+017F for s and U+212A for k; digits 0-9; space; quote; ';' or space."""
+    both cases and NO non-ASCII scalar value ((?i-u)); digits 0-9; space; quote; ';' or space."""
     cases, meta = [], []
     for L, (p, s) in FOLD_TEMPLATES.items():
         cases.append({"settings": {"shards": 5}, "steps": [{"op": "foldscan", "prefix": p, "suffix": s, "lo": 1, "hi": 0x110000}]})
@@ -738,7 +725,7 @@ def fold_scan(run, binp, quick, dist, samples):
         hits = set(r["out"][0]["hits"])
         n += r["out"][0]["tried"]
         if L.isalpha():
-            want = {ord(L), ord(L.lower())} | ({0x17f} if L == "S" else set()) | ({0x212a} if L == "K" else set())
+            want = {ord(L), ord(L.lower())}
         elif L == "1":
             want = set(range(48, 58))
         elif L == ";":
@@ -750,12 +737,12 @@ def fold_scan(run, binp, quick, dist, samples):
             missing = sorted(want - hits)[:5]
             run.violation("tie-broken" if not extra else "counterexample",
                           "in the position of %r the implementation accepts code points %s beyond / misses %s of what the model transcribes" % (L, [hex(x) for x in extra], [hex(x) for x in missing]),
-                          {"correspondence": "Model.v eat_char vs regex crate (?i)", "kind_of_input": "classify",
+                          {"correspondence": "Model.v eat_char vs regex crate (?i-u)", "kind_of_input": "classify",
                            "input": {"hex": (FOLD_TEMPLATES[L][0] + (chr(extra[0] & 0x7fffffff) if extra else "?") + FOLD_TEMPLATES[L][1]).encode().hex(), "text": "fold scan"},
                            "hits": sorted(hits)[:20], "expected": sorted(want)})
             break
     dist["fold_scan_code_points_x_positions"] = n
-    samples.append({"kind": "fold_scan", "position_of": "K", "accepted_code_points": ["0x4b", "0x6b", "0x212a"]})
+    samples.append({"kind": "fold_scan", "position_of": "K", "accepted_code_points": ["0x4b", "0x6b"], "scalar_values_tried": 1112063})
     return n
 
 
@@ -794,32 +781,25 @@ def sessions(run, binp, quick, proof_ok, oracle, distinct, samples, dist):
         if dr:
             s["default_role"] = dr
         cfgs.append((s, gen_session(rng, s["shards"])))
-    # the fixed session of Props.v and a D1 witness first
+    # the fixed session of Props.v and the regression session of the former D1 first
     cfgs.insert(0, ({"shards": 5, "parser": False, "primary_reads": True},
                     [b"SET SHARD TO 3", b"SET SHARD TO 7", b"SET SHARD TO 99999999999999999999999", b"SET SHARD TO aNy", b"SET SHARDING KEY TO 12",
-                     b"SET SHARDING KEY TO 9223372036854775808", b"SET SERVER ROLE TO 'Replica'", b"SET SERVER ROLE TO 'AUTO'", b"SET PRIMARY READS TO off", b"SHOW SHARD",
+                     b"SET SHARDING KEY TO 9223372036854775808", b"SET SERVER ROLE TO 'Replica'", b"SET SERVER ROLE TO 'AUTO'", b"SET PRIMARY READS TO OFF", b"SHOW SHARD",
                      b"SHOW SERVER ROLE", b"SHOW PRIMARY READS"]))
-    cfgs.insert(1, ({"shards": 1, "parser": False, "primary_reads": True}, [b"SET PRIMARY READS TO OFF", b"SHOW PRIMARY READS", b"SET PRIMARY READS TO off", b"SHOW PRIMARY READS"]))
+    cfgs.insert(1, ({"shards": 1, "parser": False, "primary_reads": True}, [b"SET PRIMARY READS TO OFF", b"SHOW PRIMARY READS", b"SET PRIMARY READS TO 'On'", b"SHOW PRIMARY READS", b"SET PRIMARY READS TO DeFaUlT", b"SHOW PRIMARY READS"]))
     cases = [{"settings": s, "steps": [{"op": "q", "hex": q.hex()} for q in qs]} for s, qs in cfgs]
     res = run_cases(binp, cases)
     n = 0
-    d1 = []
     steps_total = 0
     # monitor
     for (s, qs), r in zip(cfgs, res):
-        problems, known = monitor_session(oracle, s, qs, r["out"])
+        problems = monitor_session(oracle, s, qs, r["out"])
         steps_total += len(qs)
-        d1 += [(s, qs, k) for k in known]
         if problems:
             i, msg = problems[0]
             run.violation("counterexample", "session %s under %s: step %d: %s" % ([q.decode("latin1") for q in qs[:i + 1]], s, i, msg),
                           {"kind_of_input": "session", "input": {"settings": s, "queries_hex": [q.hex() for q in qs[:i + 1]]}, "monitor": msg})
             return n
-    if d1:
-        s, qs, (i, msg) = d1[0]
-        run.known_finding("open: SET PRIMARY READS TO <ON|Off|DEFAULT..> (any capitalisation other than lower case) is answered 'SET PRIMARY READS' but changes nothing, so SHOW PRIMARY READS does not report it: "
-                          "%d occurrence(s) in generated sessions, e.g. %s: %s; class known_c13 (query_router.rs:353-362 compares the capture case-sensitively)"
-                          % (len(d1), [q.decode("latin1") for q in qs[:i + 1]], msg), key="D1-primary-reads-case")
     # model
     if proof_ok:
         exprs = []
@@ -847,7 +827,7 @@ def sessions(run, binp, quick, proof_ok, oracle, distinct, samples, dist):
                 mod = ((mc, bytes(mv)), coq_obs_state(mpre), bytes(mrep), coq_obs_state(mpost))
                 if got != mod:
                     field = [nm for nm, a, b in zip(("command/value", "state after try_execute_command", "reply bytes", "state after the reply"), got, mod) if a != b]
-                    prob, _ = monitor_session(oracle, s, qs, r["out"])
+                    prob = monitor_session(oracle, s, qs, r["out"])
                     run.violation("counterexample" if prob else "tie-broken",
                                   "session %s under %s: step %d differs in %s: implementation %s, model %s" % ([x.decode("latin1") for x in qs[:i + 1]], s, i, field, got, mod),
                                   {"kind_of_input": "session", "correspondence": "Cmd/Model.v handle/encode vs try_execute_command + messages.rs", "input": {"settings": s, "queries_hex": [x.hex() for x in qs[:i + 1]]},
@@ -940,18 +920,18 @@ def replay(run, path):
     if kind == "classify":
         q = bytes.fromhex(inp["hex"])
         o = real_classify(binp, [q], r.get("settings"))[0]
-        im, doc = impl_obs(o), (oracle.classify(q) if all(b < 128 for b in q) else None)
+        im, doc = impl_obs(o), oracle.classify(q)
         print("replay: query %r -> implementation %s ; documented language %s" % (q, im, doc))
-        bad = (im is not None and im[0] == "panic") or (all(b < 128 for b in q) and not same_class(im, doc)) or (not all(b < 128 for b in q) and im is not None)
+        bad = (im is not None and im[0] == "panic") or not same_class(im, doc)
         return 1 if bad else 0
     if kind == "session":
         qs = [bytes.fromhex(h) for h in inp["queries_hex"]]
         res = run_cases(binp, [{"settings": inp["settings"], "steps": [{"op": "q", "hex": q.hex()} for q in qs]}])
-        problems, known = monitor_session(oracle, inp["settings"], qs, res[0]["out"])
+        problems = monitor_session(oracle, inp["settings"], qs, res[0]["out"])
         for o in res[0]["out"]:
             print("  ", o)
-        print("replay: monitor problems %s ; inside known class %s" % (problems, known))
-        return 1 if problems or known else 0
+        print("replay: monitor problems %s" % (problems,))
+        return 1 if problems else 0
     if kind == "encoder":
         a, b = bytes.fromhex(inp["a_hex"]), bytes.fromhex(inp["b_hex"])
         res = run_cases(binp, [{"settings": {}, "steps": [{"op": "enc", "kind": inp["kind"], "a": a.hex(), "b": b.hex()}]}])
